@@ -27,6 +27,9 @@ def _tnames(src):
 
 def _norm_action(a):
     a = a.replace("::sqf::parser::sqf::bison::", "")
+    # a semantic value that is moved out of the stack instead of copied builds the same tree (bison pops the
+    # operands right after the action): std::move($n) is read as $n
+    a = re.sub(r"std::move\(\s*(\$\d+|\$\$)\s*\)", r"\1", a)
     a = re.sub(r"\s+", " ", a).strip()
     return a
 
